@@ -27,6 +27,7 @@ type RunSpec struct {
 	Prop      string `json:"prop"`
 	Seed      uint64 `json:"seed"`
 	Replay    []int  `json:"replay,omitempty"` // non-nil => replay mode
+	MaxSteps  int    `json:"max_steps,omitempty"`
 	KeepTrace bool   `json:"keep_trace,omitempty"`
 	Variant   string `json:"variant,omitempty"` // engine specific (e.g. enumeration index)
 	Tier      string `json:"tier,omitempty"`
@@ -305,6 +306,10 @@ func execute1(t *testing.T, spec RunSpec) (res RunResult) {
 
 func runInBubble(t *testing.T, sc *Scenario, spec RunSpec, res *RunResult) {
 	cfg := simrt.Config{Seed: spec.Seed, Replay: spec.Replay, KeepTrace: spec.KeepTrace, Horizon: sc.Horizon, MaxSteps: sc.Steps, Parallel: sc.Parallel, ParallelBudget: 40}
+	if spec.MaxSteps > 0 && spec.MaxSteps < cfg.MaxSteps {
+		// diagnosis only: look at the beginning of a long run
+		cfg.MaxSteps = spec.MaxSteps
+	}
 	s := simrt.New(cfg)
 	x := &Ctx{S: s, Spec: spec, T: t, probes: map[string]int{}}
 	x.Net = simnet.New(s)
